@@ -49,8 +49,8 @@ func HarnessC12a() {
 
 	k, v := verifNondetKey("k"), verifNondetVal("v")
 	var opsel []int // OPMASK: which of the 7 operations are tried (default all)
-	for o := 0; o < 7; o++ {
-		if verifBoundOr("OPMASK", 127)&(1<<uint(o)) != 0 {
+	for o := 0; o < 9; o++ {
+		if verifBoundOr("OPMASK", 511)&(1<<uint(o)) != 0 {
 			opsel = append(opsel, o)
 		}
 	}
@@ -63,8 +63,20 @@ func HarnessC12a() {
 		err = other.Insert(vctx, symKey{k}, v)
 		verifAssert("C01.insert.err", err == nil)
 	}
+	var navCur *Cursor // operations 7/8: one cursor, so that the retry is the same call on the same cursor
+	if op == 7 || op == 8 {
+		navCur, err = t.Cursor(vctx)
+		verifAssert("C01.cursor.err", err == nil)
+		if err != nil {
+			return
+		}
+	}
 	run := func() (err error) {
 		switch op {
+		case 7:
+			return navCur.Min(vctx)
+		case 8:
+			return navCur.Max(vctx)
 		case 0:
 			return t.Insert(vctx, symKey{k}, v)
 		case 1:
@@ -176,6 +188,23 @@ func HarnessC12a() {
 			if op == 0 {
 				md.put(k, v)
 			}
+			if (op == 7 || op == 8) && rerr == nil {
+				// the retried navigation call ends where a fault-free one does: on the smallest / largest entry
+				ck, _, cok := navCur.Get()
+				ksAll, _, kerr := iterAll(t)
+				if kerr == nil {
+					want := len(ksAll) > 0
+					at := true
+					if cok && want {
+						if op == 7 {
+							at = ck.(symKey).id == ksAll[0]
+						} else {
+							at = ck.(symKey).id == ksAll[len(ksAll)-1]
+						}
+					}
+					verifAssert("C12.retried-navigation-position", verifAnd(cok == want, at))
+				}
+			}
 		}
 		// C09 under faults: a version persisted after a failed (and retried) operation still records
 		// the number of entries reachable from it
@@ -183,6 +212,8 @@ func HarnessC12a() {
 			rep := checkShape(st, pr)
 			verifClass("C12.delete-shrink-load-fails-after-removal", verifAnd(op == 1, verifErrHas(ferr, "shrink: ")))
 			verifAssert("C09.size-after-failed-operation", verifAnd(rep.complete, pr.Size == rep.entries))
+			// ... and is a well-formed tree of the recorded height (levels, layers, ranges, order, counts)
+			verifAssert("C09.shape-after-failed-operation", verifAnd(verifAnd(rep.levelsOK, rep.layersOK), verifAnd(verifAnd(rep.rangesOK, rep.orderOK), rep.countsOK)))
 		}
 		ks, vs, ierr = iterAll(t)
 		verifAssert("C12.iter-after-retry.err", ierr == nil)
